@@ -101,6 +101,15 @@ func (r *canRun) frame(fr []byte, createsState bool, src, dst net.IP, sp, dp uin
 			r.lab.ev.waitLen(ev0+1, 60*time.Millisecond)
 		}
 	}
+	if _, dec := decodedPorts[dp]; dec && r.lab.ev.Len() > ev0 {
+		// the decoded-port handlers report first and close afterwards (deferred): let the close be queued before
+		// the frames of this step are collected
+		for dl := time.Now().Add(300 * time.Millisecond); time.Now().Before(dl); time.Sleep(200 * time.Microsecond) {
+			if t := r.lab.c.VerifLookup(src, dst, sp, dp); t == nil || t.State != 4 {
+				break
+			}
+		}
+	}
 	var txs []txFrame
 	var effs []string
 	for _, f := range r.lab.c.VerifDrainTx() {
@@ -692,6 +701,8 @@ func genC14(tier string, seed uint64) {
 		cuts := [][]int{nil, {1}, {5, 20}, {reqLen - 1}, {4, 5, 6, 7}, {reqLen / 2}, nil, {10, 11}}[i]
 		runHTTPPort(dp, stdPeers[i%4], uint16(45000+i), isnBoundary[i%len(isnBoundary)], target, cuts)
 	}
+	genHandoffModel("1")
+	genHandoffModel("0")
 	// 2c. hand-off of the pushed bytes to the handler goroutine, with no pause and with pauses around the time the
 	// goroutine needs to reach its wait
 	for _, gap := range []time.Duration{0, 0, time.Microsecond, 2 * time.Microsecond, 5 * time.Microsecond, 10 * time.Microsecond, 20 * time.Microsecond, 50 * time.Microsecond} {
